@@ -424,6 +424,62 @@ func insertExtras(rng *rand.Rand, bs []byte, spans []span, known map[int]bool, n
 	return out
 }
 
+type nestedRemoval struct {
+	kind, note string
+	bytes      []byte
+	req, last  bool
+}
+
+// nestedRemovals walks the wire tree of a valid encoding alongside the Go type and, for every struct value that is
+// NOT the top-level one, removes each member in turn; for a required member also together with everything behind it
+// (so that the search for it runs into the StructEnd)
+func nestedRemovals(top reflect.Type, spans []span, bs []byte) []nestedRemoval {
+	var out []nestedRemoval
+	var visit func(t reflect.Type, s span, depth int)
+	visitStruct := func(t reflect.Type, kids []span, end int, depth int, nested bool) {
+		for i, k := range kids {
+			ft, req, ok := fieldTypeByTag(t, k.Tag)
+			if !ok {
+				continue
+			}
+			if nested {
+				last := i == len(kids)-1
+				kind := "nested-absent-optional"
+				if req {
+					kind = "nested-absent-required"
+				}
+				nb := append(append([]byte(nil), bs[:k.Start]...), bs[k.End:]...)
+				out = append(out, nestedRemoval{kind, fmt.Sprintf("member tag %d of a %s at depth %d removed (last present member: %v)", k.Tag, t.Name(), depth, last), nb, req, last})
+				if req && !last {
+					nb2 := append(append([]byte(nil), bs[:k.Start]...), bs[end-1:]...)
+					out = append(out, nestedRemoval{"nested-absent-required", fmt.Sprintf("member tag %d of a %s at depth %d and all members behind it removed", k.Tag, t.Name(), depth), nb2, true, true})
+				}
+			}
+			visit(ft, k, depth+1)
+		}
+	}
+	visit = func(t reflect.Type, s span, depth int) {
+		switch {
+		case t.Kind() == reflect.Struct && s.Ty == 10:
+			visitStruct(t, s.Kids, s.End, depth, true)
+		case (t.Kind() == reflect.Slice || t.Kind() == reflect.Array) && s.Ty == 9:
+			for _, k := range s.Kids {
+				visit(t.Elem(), k, depth+1)
+			}
+		case t.Kind() == reflect.Map && s.Ty == 8:
+			for i, k := range s.Kids {
+				if i%2 == 0 {
+					visit(t.Key(), k, depth+1)
+				} else {
+					visit(t.Elem(), k, depth+1)
+				}
+			}
+		}
+	}
+	visitStruct(top, spans, len(bs), 0, false)
+	return out
+}
+
 func c04Gen(tier string, rng *rand.Rand) []mCase {
 	per, maxLen := 3, 500
 	if tier == "thorough" {
@@ -464,8 +520,8 @@ func c04Gen(tier string, rng *rand.Rand) []mCase {
 		}
 		// absent members
 		for _, s := range b.spans {
-			_, req, ok := fieldTypeByTag(b.e.typ, s.Tag)
-			if !ok || rng.Intn(2) == 0 {
+			ft, req, ok := fieldTypeByTag(b.e.typ, s.Tag)
+			if !ok || (ft.Kind() != reflect.Struct && rng.Intn(2) == 0) { // struct-typed members: always (their reset is a path of its own)
 				continue
 			}
 			nb := append(append([]byte(nil), b.bytes[:s.Start]...), b.bytes[s.End:]...)
@@ -491,12 +547,44 @@ func c04Gen(tier string, rng *rand.Rand) []mCase {
 				cs = append(cs, c)
 			}
 		}
+		// members removed INSIDE nested structs, at every nesting level (struct members, vector/array elements, map
+		// keys and values): a required member that is absent is an error also when the search for it ends on the
+		// nested struct's StructEnd; an absent optional member is judged by the model
+		for _, nr := range nestedRemovals(b.e.typ, b.spans, b.bytes) {
+			if !nr.last && rng.Intn(3) != 0 {
+				continue
+			}
+			c := mk(nr.kind, nr.note, nr.bytes)
+			if nr.req {
+				c.expect, c.sigHint = "err", nr.kind
+			} else {
+				c.expect = "any"
+			}
+			cs = append(cs, c)
+		}
 		// reused target
 		for i := 0; i < 2; i++ {
 			c := mk("reuse", "decode into a target holding a previous value", b.bytes)
 			c.g.Kind = "reuse"
 			c.seed = rng.Int63() | 1
 			c.expect, c.ref, c.sigHint = "equal", clean, "reused-target"
+			cs = append(cs, c)
+		}
+		// ... and the same for the mutated inputs of this base (unknown fields, members removed at any level): decoding
+		// ANY bytes into a used target gives what decoding them into a fresh target gives (value or error alike)
+		for j, n := clean+1, len(cs); j < n; j++ {
+			o := cs[j]
+			if o.g.Kind != "dec" {
+				continue
+			}
+			absent := strings.Contains(o.g.Class, "absent-optional")
+			if !absent && rng.Intn(3) != 0 {
+				continue
+			}
+			c := mk("reuse-mutated", "decode into a target holding a previous value: "+o.g.Note, o.g.Bytes)
+			c.g.Kind = "reuse"
+			c.seed = rng.Int63() | 1
+			c.expect, c.ref, c.sigHint = "equal", j, "reused-target"
 			cs = append(cs, c)
 		}
 	}
@@ -511,7 +599,7 @@ func init() {
 	}
 	props["C04"] = func(a Args) {
 		runMProp("C04", "Corr.dec_check / reuse_check (decode = generated ReadFrom with unknown fields inserted, members removed, target reused)",
-			"valid encodings of random values of every generated struct type, then: 1-5 well-formed unknown fields of random wire types (nested struct/list/map/simple list, STRING4, extended tags) inserted at the positions tag order allows, at top level and inside nested struct members; each member removed (required -> error, optional -> default); decode into a target pre-filled with another random value; class = (kind, struct type)",
+			"valid encodings of random values of every generated struct type, then: 1-5 well-formed unknown fields of random wire types (nested struct/list/map/simple list, STRING4, extended tags) inserted at the positions tag order allows, at top level and inside nested struct members; each member removed (required -> error, optional -> default) at top level and inside every nested struct value (struct members, vector/array elements, map keys/values; a required member also together with everything behind it, so that the search ends on the StructEnd); decode into a target pre-filled with another random value - the clean encoding and the mutated ones (extras, members removed) alike, judged against the decode of the same bytes into a fresh target; class = (kind, struct type)",
 			a, c04Gen, 10000)
 	}
 }
